@@ -11,20 +11,14 @@
 #include <vector>
 #include "util.hpp"
 
+// both overloads of every callback: the handler notes when it is handed an object with a const-ness other than that of the item the dispatcher was given
 struct LogHandler : public osmium::handler::Handler {
-    std::vector<std::string> log;
-    void osm_object(const osmium::OSMObject&) { log.push_back("osm_object"); }
-    void node(const osmium::Node&) { log.push_back("node"); }
-    void way(const osmium::Way&) { log.push_back("way"); }
-    void relation(const osmium::Relation&) { log.push_back("relation"); }
-    void area(const osmium::Area&) { log.push_back("area"); }
-    void changeset(const osmium::Changeset&) { log.push_back("changeset"); }
-    void tag_list(const osmium::TagList&) { log.push_back("tag_list"); }
-    void way_node_list(const osmium::WayNodeList&) { log.push_back("way_node_list"); }
-    void relation_member_list(const osmium::RelationMemberList&) { log.push_back("relation_member_list"); }
-    void outer_ring(const osmium::OuterRing&) { log.push_back("outer_ring"); }
-    void inner_ring(const osmium::InnerRing&) { log.push_back("inner_ring"); }
-    void changeset_discussion(const osmium::ChangesetDiscussion&) { log.push_back("changeset_discussion"); }
+    std::vector<std::string> log; bool item_is_const = true;
+#define CB(name, T) void name(const osmium::T&) { log.push_back(item_is_const ? #name : #name "[as const " #T "&]"); } \
+                    void name(osmium::T&) { log.push_back(item_is_const ? #name "[as non-const " #T "&]" : #name); }
+    CB(osm_object, OSMObject) CB(node, Node) CB(way, Way) CB(relation, Relation) CB(area, Area) CB(changeset, Changeset) CB(tag_list, TagList) CB(way_node_list, WayNodeList)
+    CB(relation_member_list, RelationMemberList) CB(outer_ring, OuterRing) CB(inner_ring, InnerRing) CB(changeset_discussion, ChangesetDiscussion)
+#undef CB
 };
 
 static const char* own_cb(unsigned t) {
@@ -36,7 +30,7 @@ static const char* own_cb(unsigned t) {
 static int check_dispatch(const std::string& variant, unsigned t, bool quiet) {
     alignas(8) unsigned char mem[256] = {0};
     uint32_t size = 64; std::memcpy(mem, &size, 4); uint16_t ty = uint16_t(t); std::memcpy(mem + 4, &ty, 2);
-    LogHandler h; bool threw = false;
+    LogHandler h; bool threw = false; h.item_is_const = variant.find("const") != std::string::npos;
     try {
         if (variant == "apply_item_generic") { auto& item = *reinterpret_cast<osmium::memory::Item*>(mem); osmium::detail::apply_item_impl(item, h); }
         else if (variant == "apply_item_const_entity") { const auto& item = *reinterpret_cast<const osmium::OSMEntity*>(mem); osmium::detail::apply_item_impl(item, h); }
